@@ -593,6 +593,7 @@ static bool srv_validater (StunAgent *agent, StunMessage *message, uint8_t *user
  *  d drop | s success | S success twice | l late success (+700 ms) | e error 400 | E error 500 | u 401 with realm/nonce
  *  n 438 stale nonce | r 300 try-alternate (127.0.0.99:3478) | g garbage | x success carrying another transaction id
  *  m success WITHOUT message integrity (turn) | 6 success with an IPv6 mapped address
+ *  R (turn) success whose relayed address shares the IP of the mapped address (TURN server on the NAT gateway)
  *  a (turn) authenticate: valid long-term credentials -> signed success, otherwise 401 with realm/nonce */
 static void srv_reply (Server *s, Dgram *g, char b)
 {
@@ -626,7 +627,7 @@ static void srv_reply (Server *s, Dgram *g, char b)
   if (b == 'd') return;
   if (b == 'g') { uint8_t junk[40]; int i; for (i = 0; i < 40; i++) junk[i] = rng_next (); enqueue (&s->addr, &g->from, junk, 40, due); return; }
   if (b == 'l') due += 700000;
-  if (b == 's' || b == 'S' || b == 'l' || b == 'x' || b == 'm' || b == '6') {
+  if (b == 's' || b == 'S' || b == 'l' || b == 'x' || b == 'm' || b == '6' || b == 'R') {
     if (b == 'm') { req.key = NULL; req.key_len = 0; req.long_term_valid = FALSE; }
     if (!stun_agent_init_response (&sa, &resp, buf, sizeof buf, &req)) return;
     if (b == '6') {
@@ -641,6 +642,7 @@ static void srv_reply (Server *s, Dgram *g, char b)
     }
     if (s->kind == 1 && stun_message_get_method (&req) == STUN_ALLOCATE) {
       struct sockaddr_in rel = s->addr; rel.sin_port = htons (49152 + (s->nreq % 1000));
+      if (b == 'R') rel.sin_addr = mapped.sin_addr;     /* relayed address on the same IP as the mapped (NAT gateway) address */
       stun_message_append_xor_addr (&resp, STUN_ATTRIBUTE_RELAY_ADDRESS, (struct sockaddr_storage *) &rel, sizeof rel);
       stun_message_append32 (&resp, STUN_ATTRIBUTE_LIFETIME, 600);
     }
